@@ -669,6 +669,11 @@ func (e *Engine) mapLookup(st *State, m *types.Map, ref, key *Term) (Val, *Term)
 		}
 	}
 	has := And(Ne(ref, IntC(0)), Select(hasArr, key))
+	if !has.IsConst() && !has.hasQ {
+		// a map that holds a key is not empty
+		ln := Select(st.heap.get(p+"len", nestedSort(SInt, 1)), ref)
+		e.fact(st, Implies(has, Le(IntC(1), ln)))
+	}
 	ls := leavesOf(m.Elem())
 	out := make(Val, len(ls))
 	zero := zeroVal(m.Elem())
